@@ -130,3 +130,176 @@ impl<D: StorageData> VStorage<D> {
         self.0.verif_data_mut()
     }
 }
+
+/// Wrappers over the crate-private `MultiMapStorage<u64, u64, MemoryStorage>` and
+/// `DbIndexedMap<String, DbId, MemoryStorage>` with slot dumps, and the stable hash functions
+/// (verification group `coll`, properties C10 / C19).
+pub mod coll {
+    use crate::DbError;
+    use crate::DbId;
+    use crate::MemoryStorage;
+    use crate::collections::indexed_map::DbIndexedMap;
+    use crate::collections::map::MapData;
+    use crate::collections::map::MapValueState;
+    use crate::collections::multi_map::MultiMapStorage;
+    use crate::storage::Storage;
+    use crate::utilities::stable_hash::StableHash;
+
+    /// Slot state code: 0 = Empty, 1 = Valid, 2 = Deleted (same as the on-disk byte).
+    pub type SlotDump<K, T> = (u8, K, T);
+
+    fn state_code(s: MapValueState) -> u8 {
+        match s {
+            MapValueState::Empty => 0,
+            MapValueState::Valid => 1,
+            MapValueState::Deleted => 2,
+        }
+    }
+
+    pub fn stable_hash_str(s: &str) -> u64 {
+        s.to_string().stable_hash()
+    }
+
+    pub fn stable_hash_i64(v: i64) -> u64 {
+        v.stable_hash()
+    }
+
+    pub fn stable_hash_db_id(v: DbId) -> u64 {
+        v.stable_hash()
+    }
+
+    pub struct VerifMultiMap {
+        storage: Storage<MemoryStorage>,
+        map: MultiMapStorage<u64, u64, MemoryStorage>,
+    }
+
+    impl VerifMultiMap {
+        pub fn new() -> Result<Self, DbError> {
+            let mut storage: Storage<MemoryStorage> = Storage::new("verif")?;
+            let map = MultiMapStorage::<u64, u64, MemoryStorage>::new(&mut storage)?;
+            Ok(Self { storage, map })
+        }
+
+        pub fn insert(&mut self, key: u64, value: u64) -> Result<(), DbError> {
+            self.map.insert(&mut self.storage, &key, &value)
+        }
+
+        /// `only_if == None`: replace any existing value of the key (this is `MapImpl::insert`);
+        /// `only_if == Some(v)`: replace the first value of the key equal to `v`.
+        pub fn insert_or_replace(
+            &mut self,
+            key: u64,
+            only_if: Option<u64>,
+            value: u64,
+        ) -> Result<Option<u64>, DbError> {
+            match only_if {
+                None => self
+                    .map
+                    .insert_or_replace(&mut self.storage, &key, |_| true, &value),
+                Some(old) => self
+                    .map
+                    .insert_or_replace(&mut self.storage, &key, |v| *v == old, &value),
+            }
+        }
+
+        pub fn remove_key(&mut self, key: u64) -> Result<(), DbError> {
+            self.map.remove_key(&mut self.storage, &key)
+        }
+
+        pub fn remove_value(&mut self, key: u64, value: u64) -> Result<(), DbError> {
+            self.map.remove_value(&mut self.storage, &key, &value)
+        }
+
+        pub fn reserve(&mut self, capacity: u64) -> Result<(), DbError> {
+            self.map.reserve(&mut self.storage, capacity)
+        }
+
+        pub fn contains(&self, key: u64) -> Result<bool, DbError> {
+            self.map.contains(&self.storage, &key)
+        }
+
+        pub fn contains_value(&self, key: u64, value: u64) -> Result<bool, DbError> {
+            self.map.contains_value(&self.storage, &key, &value)
+        }
+
+        pub fn value(&self, key: u64) -> Result<Option<u64>, DbError> {
+            self.map.value(&self.storage, &key)
+        }
+
+        pub fn values(&self, key: u64) -> Result<Vec<u64>, DbError> {
+            self.map.values(&self.storage, &key)
+        }
+
+        pub fn values_count(&self, key: u64) -> Result<u64, DbError> {
+            self.map.values_count(&self.storage, &key)
+        }
+
+        pub fn iter(&self) -> Vec<(u64, u64)> {
+            self.map.iter(&self.storage).collect()
+        }
+
+        pub fn len(&self) -> u64 {
+            self.map.len()
+        }
+
+        pub fn capacity(&self) -> u64 {
+            self.map.capacity()
+        }
+
+        pub fn dump(&self) -> Result<Vec<SlotDump<u64, u64>>, DbError> {
+            let mut out = Vec::new();
+            for i in 0..self.map.capacity() {
+                out.push((
+                    state_code(self.map.data.state(&self.storage, i)?),
+                    self.map.data.key(&self.storage, i)?,
+                    self.map.data.value(&self.storage, i)?,
+                ));
+            }
+            Ok(out)
+        }
+    }
+
+    pub struct VerifIndexedMap {
+        storage: Storage<MemoryStorage>,
+        map: DbIndexedMap<String, DbId, MemoryStorage>,
+    }
+
+    impl VerifIndexedMap {
+        pub fn new() -> Result<Self, DbError> {
+            let mut storage: Storage<MemoryStorage> = Storage::new("verif")?;
+            let map = DbIndexedMap::<String, DbId, MemoryStorage>::new(&mut storage)?;
+            Ok(Self { storage, map })
+        }
+
+        pub fn insert(&mut self, key: &str, value: i64) -> Result<(), DbError> {
+            self.map
+                .insert(&mut self.storage, &key.to_string(), &DbId(value))
+        }
+
+        pub fn remove_key(&mut self, key: &str) -> Result<(), DbError> {
+            self.map.remove_key(&mut self.storage, &key.to_string())
+        }
+
+        pub fn remove_value(&mut self, value: i64) -> Result<(), DbError> {
+            self.map.remove_value(&mut self.storage, &DbId(value))
+        }
+
+        pub fn value(&self, key: &str) -> Result<Option<i64>, DbError> {
+            Ok(self
+                .map
+                .value(&self.storage, &key.to_string())?
+                .map(|id| id.0))
+        }
+
+        pub fn key(&self, value: i64) -> Result<Option<String>, DbError> {
+            self.map.key(&self.storage, &DbId(value))
+        }
+
+        pub fn iter(&self) -> Vec<(String, i64)> {
+            self.map
+                .iter(&self.storage)
+                .map(|(k, v)| (k, v.0))
+                .collect()
+        }
+    }
+}
